@@ -10,13 +10,12 @@ namespace SoupVerif.Imports
 bound. Opaque modules need nothing. `define` and `unknown` events are never no-ops. -/
 def Event.settled (g : Graph) (st : Interp) : Event → Bool
   | .importMod m => (g.node? m).isNone || st.has m
-  | .fromImport m n | .useAttr m n _ =>
-    (g.node? m).isNone || (match st.get m with | some ms => ms.defined.contains n | none => false)
+  | .fromImport m n | .useAttr m n _ => (g.node? m).isNone || (st.has m && st.hasName m n)
   | .define _ => false
   | .unknown _ => false
 
 /-- Importing a module that is already in `sys.modules` changes nothing. -/
-theorem importModule_present (g : Graph) (fuel : Nat) (st : Interp) (m : String)
+theorem importModule_present (g : Graph) (fuel : Nat) (st : Interp) (m : Name)
     (h : (g.node? m).isNone = true ∨ st.has m = true) :
     importModule g (fuel + 1) st m = .ok st := by
   unfold importModule
@@ -27,7 +26,7 @@ theorem importModule_present (g : Graph) (fuel : Nat) (st : Interp) (m : String)
     · simp [hn] at h
     · simp [h]
 
-theorem execEvent_settled (g : Graph) (fuel : Nat) (cur : String) (st : Interp) (ev : Event)
+theorem execEvent_settled (g : Graph) (fuel : Nat) (cur : Option Name) (st : Interp) (ev : Event)
     (h : ev.settled g st = true) :
     execEvent g (importModule g (fuel + 1)) cur st ev = .ok st := by
   cases ev with
@@ -35,29 +34,25 @@ theorem execEvent_settled (g : Graph) (fuel : Nat) (cur : String) (st : Interp) 
     simp only [Event.settled, Bool.or_eq_true] at h
     exact importModule_present g fuel st m h
   | fromImport m n =>
-    simp only [Event.settled, Bool.or_eq_true] at h
+    simp only [Event.settled, Bool.or_eq_true, Bool.and_eq_true] at h
     cases hn : g.node? m with
     | none => simp [execEvent, hn]
     | some node =>
       rcases h with h | h
       · simp [hn] at h
-      · cases hg : st.get m with
-        | none => simp [hg] at h
-        | some ms => simp [hg] at h; simp [execEvent, hn, hg, h]
+      · simp [execEvent, hn, h.1, h.2]
   | useAttr m n v =>
-    simp only [Event.settled, Bool.or_eq_true] at h
+    simp only [Event.settled, Bool.or_eq_true, Bool.and_eq_true] at h
     cases hn : g.node? m with
     | none => simp [execEvent, hn]
     | some node =>
       rcases h with h | h
       · simp [hn] at h
-      · cases hg : st.get m with
-        | none => simp [hg] at h
-        | some ms => simp [hg] at h; simp [execEvent, hn, hg, h]
+      · simp [execEvent, hn, h.1, h.2]
   | define n => simp [Event.settled] at h
   | unknown w => simp [Event.settled] at h
 
-theorem execEvents_settled (g : Graph) (fuel : Nat) (cur : String) (st : Interp) (evs : List Event)
+theorem execEvents_settled (g : Graph) (fuel : Nat) (cur : Option Name) (st : Interp) (evs : List Event)
     (h : evs.all (fun ev => ev.settled g st) = true) :
     execEvents g (importModule g (fuel + 1)) cur st evs = .ok st := by
   induction evs with
@@ -71,25 +66,25 @@ theorem execEvents_settled (g : Graph) (fuel : Nat) (cur : String) (st : Interp)
 /-- **Re-import is a no-op**, for an arbitrary interpreter state: when every module the statement names is
 already in `sys.modules` and every name it fetches is already bound, the statement succeeds and leaves
 `sys.modules` exactly as it was. -/
-theorem execEntry_settled (g : Graph) (all : List String) (st : Interp) (e : EntryPoint)
-    (h : (e.events all).all (fun ev => ev.settled g st) = true) :
-    execEntry g all st e = .ok st := by
+theorem execEntry_settled (g : Graph) (ids : EntryIds) (st : Interp) (e : EntryPoint)
+    (h : (e.events ids).all (fun ev => ev.settled g st) = true) :
+    execEntry g ids st e = .ok st := by
   unfold execEntry Graph.fuel
-  exact execEvents_settled g (g.length + 1) "__main__" st _ h
+  exact execEvents_settled g (g.length + 1) none st _ h
 
-theorem run_nil (g : Graph) (all : List String) (st : Interp) : run g all st [] = .ok st := rfl
+theorem run_nil (g : Graph) (ids : EntryIds) (st : Interp) : run g ids st [] = .ok st := rfl
 
-theorem run_cons_ok (g : Graph) (all : List String) (st st' : Interp) (e : EntryPoint) (es : List EntryPoint)
-    (h : execEntry g all st e = .ok st') : run g all st (e :: es) = run g all st' es := by
+theorem run_cons_ok (g : Graph) (ids : EntryIds) (st st' : Interp) (e : EntryPoint) (es : List EntryPoint)
+    (h : execEntry g ids st e = .ok st') : run g ids st (e :: es) = run g ids st' es := by
   simp [run, h]
 
-theorem run_append (g : Graph) (all : List String) (st st' : Interp) (xs ys : List EntryPoint)
-    (h : run g all st xs = .ok st') : run g all st (xs ++ ys) = run g all st' ys := by
+theorem run_append (g : Graph) (ids : EntryIds) (st st' : Interp) (xs ys : List EntryPoint)
+    (h : run g ids st xs = .ok st') : run g ids st (xs ++ ys) = run g ids st' ys := by
   induction xs generalizing st with
   | nil => simp [run] at h; subst h; rfl
   | cons x xs ih =>
     simp only [run, List.cons_append] at h ⊢
-    cases hx : execEntry g all st x with
+    cases hx : execEntry g ids st x with
     | error e => simp [hx] at h
     | ok s1 => simp only [hx] at h ⊢; exact ih s1 h
 
